@@ -60,6 +60,11 @@ namespace mfuse
 
                 e->SetNext(table[hash]);
                 table[hash] = e;
+
+                if (!defaultEntry) {
+                    // as after a normal insertion: a non-empty set has a default entry
+                    defaultEntry = e;
+                }
             }
         }
         else
